@@ -451,6 +451,7 @@ func (c *converter) syncIngressHTTP(source *annotations.Source, ing *networking.
 			if sslpassthrough && uri == "/" {
 				if host.FindPath(uri) != nil {
 					c.logger.Warn("skipping redeclared ssl-passthrough root path on %v", source)
+					c.trackRefusedBackend(source, ing.Namespace, &path.Backend)
 					continue
 				}
 			} else if host.FindPathWithLink(pathLink) != nil {
